@@ -9,6 +9,7 @@ from __future__ import annotations
 
 import itertools
 import random
+import signal
 from collections import Counter
 from typing import Any, Dict, Iterable, Iterator, List, Optional, Sequence, Tuple
 
@@ -76,21 +77,73 @@ def enc_mntm(m, st: Optional[Names] = None) -> Tuple[str, Names]:
 
 
 # ------------------------------------------------------------ observing generators
+class HarnessTimeout(Exception):
+    """A single call into the library did not come back within the watchdog limit (a loop that
+    does not terminate inside one next() — reported like a crash, never waited for)."""
+
+
+TIMEOUTS = 0          # watchdog hits so far in this process
+MAX_TIMEOUTS = 3      # after that many, the ops modules skip the remaining cases
+
+
+def gave_up() -> bool:
+    return TIMEOUTS >= MAX_TIMEOUTS
+
+
+class time_limit:
+    def __init__(self, seconds: float = 5.0):
+        self.seconds = seconds
+
+    def _raise(self, *_):
+        raise HarnessTimeout()
+
+    def __enter__(self):
+        self.old = signal.signal(signal.SIGALRM, self._raise)
+        signal.setitimer(signal.ITIMER_REAL, self.seconds)
+
+    def __exit__(self, *exc):
+        signal.setitimer(signal.ITIMER_REAL, 0)
+        signal.signal(signal.SIGALRM, self.old)
+        return False
+
+
 def observe(gen, n: int):
     """n calls of next(): (yields, end) with end in 'ret' | 'run' | 'raise <Class>'."""
     ys, end = [], "run"
-    for _ in range(n):
-        try:
-            ys.append(next(gen))
-        except StopIteration:
-            end = "ret"
-            break
-        except RecursionError:
-            raise
-        except Exception as e:  # noqa: BLE001
-            end = "raise " + type(e).__name__
-            break
+    try:
+        with time_limit():
+            for _ in range(n):
+                try:
+                    ys.append(next(gen))
+                except StopIteration:
+                    end = "ret"
+                    break
+                except (RecursionError, HarnessTimeout):
+                    raise
+                except Exception as e:  # noqa: BLE001
+                    end = "raise " + type(e).__name__
+                    break
+    except HarnessTimeout:
+        global TIMEOUTS
+        TIMEOUTS += 1
+        end = "raise HarnessTimeout"
     return ys, end
+
+
+def bounded_call(f):
+    """call(f) under the watchdog."""
+    try:
+        with time_limit():
+            try:
+                return ("ok", f())
+            except (RecursionError, HarnessTimeout):
+                raise
+            except Exception as e:  # noqa: BLE001
+                return ("err", type(e).__name__)
+    except HarnessTimeout:
+        global TIMEOUTS
+        TIMEOUTS += 1
+        return ("err", "HarnessTimeout")
 
 
 def verdict_of(end: str) -> str:
@@ -320,7 +373,7 @@ def mntm1_from(kw, table) -> MNTM:
 
 def rand_ntm(rng: random.Random, max_states: int = 4) -> NTM:
     names, isy, tsy, blank, finals, nonfinal, init = rand_tm_parts(rng, max_states)
-    dens = rng.choice([0.3, 0.6, 0.9])
+    dens = rng.choice([0.4, 0.7, 0.9, 1.0])
     pick_dir = _dirs(rng)
     wblank = rng.choice([0.0, 0.2, 0.6])
     table: Dict[Any, Dict[str, set]] = {}
@@ -328,7 +381,7 @@ def rand_ntm(rng: random.Random, max_states: int = 4) -> NTM:
         row = {}
         for s in tsy:
             if rng.random() < dens:
-                k = rng.choice([0, 1, 1, 1, 2, 2, 3])
+                k = rng.choice([0, 1, 1, 2, 2, 2, 3])
                 row[s] = {(rng.choice(names), blank if rng.random() < wblank else rng.choice(tsy), pick_dir())
                           for _ in range(k)}
         if row or q == init or rng.random() < 0.5:
@@ -343,14 +396,14 @@ def rand_mntm(rng: random.Random, max_states: int = 4, n_tapes: Optional[int] = 
     names, isy, tsy, blank, finals, nonfinal, init = rand_tm_parts(rng, max_states)
     nt = n_tapes or rng.choice([1, 1, 2, 2, 3])
     if deterministic is None:
-        deterministic = rng.random() < 0.4
+        deterministic = rng.random() < 0.3
     pick_dir = _dirs(rng)
     wblank = rng.choice([0.0, 0.2, 0.6])
     # read keys that can actually occur: the other tapes start blank, so bias towards blanks
     def rand_key():
         return tuple(rng.choice(tsy) if (i == 0 or rng.random() < 0.5) else blank for i in range(nt))
     table: Dict[Any, Dict[tuple, list]] = {}
-    n_keys = rng.choice([1, 2, 3, 4, 6]) * (1 if nt == 1 else 2)
+    n_keys = rng.choice([2, 3, 4, 6]) * (1 if nt == 1 else 2)
     for q in nonfinal:
         row: Dict[tuple, list] = {}
         for _ in range(n_keys if rng.random() < 0.8 else 1):
